@@ -225,7 +225,9 @@ func (t *Ticket) GetPACType(keytab *keytab.Keytab, sname *types.PrincipalName, l
 			var ad2 types.AuthorizationData
 			err := ad2.Unmarshal(ad.ADData)
 			if err != nil {
-				l.Printf("PAC authorization data could not be unmarshaled: %v", err)
+				if l != nil {
+					l.Printf("PAC authorization data could not be unmarshaled: %v", err)
+				}
 				continue
 			}
 			if len(ad2) < 1 {
